@@ -171,6 +171,51 @@ def run(tier):
                 ob.append(int(next(b))); oa.append(int(next(a)))
         if sorted(oa) != list(range(n)) or sorted(ob) != list(range(n)):
             failures.append(dict(kind='history', summary=f'two local-shuffle iterators in flight: {oa} / {ob}', config=dict(kind='local2', n=n, B=B)))
+    # (a') frozen copies of a reshuffle object in flight (explicit copy(freeze=True), and the implicit ones taken by catch / lazy apply
+    #      at the start of every iteration): later epochs of the same object must not disturb them
+    nfrozen = 0
+    for _ in range(1500 if big else 200):
+        n = r.randint(0, 7)
+        seed = r.randint(0, 10 ** 6)
+        rs = ld.new(list(range(n))).shuffle(True, rng=np.random.RandomState(seed))
+        kind = r.choice(['freeze', 'catch', 'lazyapply', 'freeze_catch'])
+        if kind == 'freeze':
+            mk = lambda: iter(rs.copy(freeze=True))
+        elif kind == 'catch':
+            c = rs.catch()
+            mk = lambda: iter(c)
+        elif kind == 'lazyapply':
+            c = rs.apply(lambda d: d, lazy=True)
+            mk = lambda: iter(c)
+        else:
+            c = rs.copy(freeze=True).catch()
+            mk = lambda: iter(c)
+        k = r.choice([2, 2, 3])
+        script = [i for i in range(k) for _ in range(n + 1)]
+        r.shuffle(script)
+        if r.random() < 0.3:
+            script.insert(r.randint(0, len(script)), 'epoch')      # a complete epoch of the bare reshuffle object in between
+        its, outs = {}, {}
+        try:
+            for st in script:
+                if st == 'epoch':
+                    list(rs)
+                    continue
+                if st not in its:
+                    its[st] = mk(); outs[st] = []
+                try:
+                    outs[st].append(int(next(its[st])))
+                except StopIteration:
+                    pass
+        except Exception as e:
+            failures.append(dict(kind='history', summary=f'{kind} over reshuffle n={n} seed={seed} script={script}: raised {type(e).__name__}: {e}', config=dict(kind='frozen', n=n, seed=seed, script=script, how=kind)))
+            continue
+        nfrozen += 1
+        for i, o in outs.items():
+            if sorted(o) != list(range(n)):
+                failures.append(dict(kind='history', summary=f'{kind} over reshuffle n={n} seed={seed} next()-script {script}: iterator {i} yielded {o}, not a permutation of range({n})',
+                                     config=dict(kind='frozen', n=n, seed=seed, script=script, how=kind), got_from_impl=repr(outs)))
+                break
     # (c) one-time shuffle, shuffled tiling, sampling without replacement: permutation predicates
     nsel = 0
     for _ in range(1500 if big else 200):
@@ -216,7 +261,7 @@ def run(tier):
                     'buffer sizes 1..n+1, value and key iteration, two iterators in flight; one-time shuffle / shuffled tiling / sampling without replacement: permutation predicates; '
                     'every RNG draw is recorded from numpy and fed to the model; non-trivial = n >= 2 (and >= 3 next() calls for reshuffle)',
                reshuffle_histories=len(rcases), interleaved_histories=sum(1 for m in rmeta if len(set(m[1])) > 1),
-               local_shuffle_cases=len(lcases), selection_cases=nsel,
+               local_shuffle_cases=len(lcases), selection_cases=nsel, frozen_copy_histories=nfrozen,
                traces_validated_against_impl=len(rcases) + len(lcases), disagreements_checked=len(rb) + len(lb),
                samples=[dict(n=rmeta[i][0], script=rmeta[i][1], outs=rmeta[i][2]) for i in (0, len(rmeta) // 2, len(rmeta) - 1)],
                exhaustive=False)
